@@ -13,7 +13,7 @@ LEAN_MODULES = ["NdInterp.Props.C20", "NdInterp.Props.RatTie"]
 THEOREM_FILES = [("NdInterp/Props/C20.lean", "C20_")]
 RULE = ("metamorphic, on the real code: a base case (one query) and variants in which every non-bracketing data row/column is "
         "replaced by NaN, +-inf or random values, or every non-bracketing knot is moved within its neighbours; Linear and Bilinear, "
-        "in range and extrapolated, all lanes; results must be bit-identical at f64 and equal at Q. The base cases also run through "
+        "in range and extrapolated, all lanes, axes and data stored as plain, strided or reversed-stride views (one layout per group); results must be bit-identical at f64 and equal at Q. The base cases also run through "
         "the model correspondence. non-trivial = variant that changes at least one value; distinct = distinct variant line")
 PARTIAL = []
 ASSUMPTIONS = ["C20_*_axis is proved over ordered fields; for f64 the premise 'same bracket' is what the bitwise runs exercise"]
@@ -88,6 +88,8 @@ def extra(rng, tier):
     for _ in range(reps):
         S = rng.choice(["F", "F", "Q"])
         ext = rng.random() < 0.5
+        # storage of the group (same for the base case and its variants): axes as plain, strided or reversed views, data in any layout
+        lx, ly, ld = rng.choice(gen.LAYS_1D), rng.choice(gen.LAYS_1D), rng.choice(gen.LAYS_ND)
         if rng.random() < 0.5:
             n = rng.choice([3, 4, 6, 10])
             shape = [n] + gen.trailing_shape(rng, 2)
@@ -103,18 +105,18 @@ def extra(rng, tier):
                 q = rng.choice([rng.uniform(xs[0], xs[-1]), xs[rng.randrange(n)]] + ([xs[0] - span * 0.3, xs[-1] + span * 2] if ext else []))
             i = lin_bracket(xs, q)
             base = len(lines)
-            lines.append(i1_line(S, xs, shape, flat, ("lin", ext), e_array(S, [1], [q])))
+            lines.append(i1_line(S, xs, shape, flat, ("lin", ext), e_array(S, [1], [q]), xlay=lx, dlay=ld))
             var = []
             for _ in range(3):
                 f2 = list(flat)
                 for r in range(n):
                     if r not in (i, i + 1):
                         f2[r * L:(r + 1) * L] = poison_vals(rng, S, L)
-                lines.append(i1_line(S, xs, shape, f2, ("lin", ext), e_array(S, [1], [q])))
+                lines.append(i1_line(S, xs, shape, f2, ("lin", ext), e_array(S, [1], [q]), xlay=lx, dlay=ld))
                 var.append(len(lines) - 1)
             for _ in range(2):
                 x2 = move_knots(rng, S, xs, {i, i + 1})
-                lines.append(i1_line(S, x2, shape, flat, ("lin", ext), e_array(S, [1], [q])))
+                lines.append(i1_line(S, x2, shape, flat, ("lin", ext), e_array(S, [1], [q]), xlay=lx, dlay=ld))
                 var.append(len(lines) - 1)
             groups.append((base, var))
         else:
@@ -127,7 +129,7 @@ def extra(rng, tier):
             x, y = qx[0], qy[0]
             i, j = lin_bracket(xs, x), lin_bracket(ys, y)
             base = len(lines)
-            lines.append(i2_line(S, xs, ys, shape, flat, ext, e_array(S, [1], [x], [y])))
+            lines.append(i2_line(S, xs, ys, shape, flat, ext, e_array(S, [1], [x], [y]), xlay=lx, ylay=ly, dlay=ld))
             var = []
             for _ in range(3):
                 f2 = list(flat)
@@ -135,12 +137,12 @@ def extra(rng, tier):
                     for b in range(ny):
                         if not (a in (i, i + 1) and b in (j, j + 1)):
                             f2[(a * ny + b) * L:(a * ny + b + 1) * L] = poison_vals(rng, S, L)
-                lines.append(i2_line(S, xs, ys, shape, f2, ext, e_array(S, [1], [x], [y])))
+                lines.append(i2_line(S, xs, ys, shape, f2, ext, e_array(S, [1], [x], [y]), xlay=lx, ylay=ly, dlay=ld))
                 var.append(len(lines) - 1)
             for _ in range(2):
                 x2 = move_knots(rng, S, xs, {i, i + 1})
                 y2 = move_knots(rng, S, ys, {j, j + 1})
-                lines.append(i2_line(S, x2, y2, shape, flat, ext, e_array(S, [1], [x], [y])))
+                lines.append(i2_line(S, x2, y2, shape, flat, ext, e_array(S, [1], [x], [y]), xlay=lx, ylay=ly, dlay=ld))
                 var.append(len(lines) - 1)
             groups.append((base, var))
     outs = vlib.run_impl_only(ID, lines, tag="extra")
